@@ -192,6 +192,10 @@ pub fn behaviour(b: u64, rng: &mut Rng, out: &mut Out, big: bool, big_hi: u64) -
             ev["proj"] = proj(&table, &index);
             ev["size"] = json!(table.size());
             ev["is_empty"] = json!(table.is_empty());
+            // what the PUBLIC iterator yields (the projection above reads the buckets through the hook): node indices in
+            // iteration order, and the number of bootstrap strings (one per node)
+            ev["iter"] = json!(table.nodes().map(|x| index.get(&(*x.id().as_bytes(), x.address())).map(|i| *i as i64 + 1).unwrap_or(-1)).collect::<Vec<i64>>());
+            ev["to_bootstrap"] = json!(table.to_bootstrap().len());
         }
         if sample_ops.len() < 6 {
             let mut s = ev.clone();
@@ -222,11 +226,18 @@ pub fn run(args: &Args) -> i32 {
         if let Some(o) = only {
             if o != b {
                 // keep the random stream aligned: generate but discard
-                let _ = behaviour(b, &mut rng, &mut sink, b >= n, big_hi);
+                let _ = std::panic::catch_unwind(std::panic::AssertUnwindSafe(|| behaviour(b, &mut rng, &mut sink, b >= n, big_hi)));
                 continue;
             }
         }
-        let (o, s) = behaviour(b, &mut rng, &mut out, b >= n, big_hi);
+        // a panic of the library (RoutingTable / ClosestNodes) is data: the behaviour ends with a `panic` line judged by TLC
+        let (o, s) = match std::panic::catch_unwind(std::panic::AssertUnwindSafe(|| behaviour(b, &mut rng, &mut out, b >= n, big_hi))) {
+            Ok(x) => x,
+            Err(_) => {
+                out.line(&json!({"e":"op","op":"panic","msg":crate::util::last_panic().chars().take(200).collect::<String>()}));
+                (1, json!({"b": b, "panicked": true}))
+            }
+        };
         ops += o;
         if samples.len() < 3 {
             samples.push(s);
